@@ -292,6 +292,10 @@ _C06, _C08 = C06, C08
 def C06(tier, seed):
     p = _C06(tier, seed)
     p["drivers"] += fn_jobs("steps", tier, seed, 8000, 100000, shards_q=2, shards_t=8)
+    shards, worlds, attempts = (2, 3, 120) if tier == "quick" else (8, 12, 400)
+    for s_ in range(shards):   # two-hop swaps: each leg's fee is booked on its own pool like a single swap's
+        p["drivers"].append({"name": f"twohop_{s_}", "args": ["twohop", "--seed", str(seed * 100 + 70 + s_), "--worlds", str(worlds), "--attempts", str(attempts)]})
+    p["must_exercise"].update({"two_hop_swap": 10, "two_hop_swap_v2": 10})
     return p
 
 
